@@ -25,8 +25,12 @@ def tree(ver):
 def sleep(ver):
     lines = ["1;255;0;0;17;2.2.0\n", "1;0;0;0;16;d\n", "1;1;0;0;3;d\n", "1;0;1;0;23;43\n", "1;0;1;0;23;57\n",
              "1;1;1;0;2;1\n", "1;0;2;0;23;\n", wake(ver, 1), "1;255;3;0;6;0\n", "1;255;3;0;1;\n",
-             "2;255;0;0;17;2.2\n", "2;255;3;0;6;0\n", "255;255;3;0;3;\n", "1;255;3;0;3;\n", "1;5;1;0;23;1\n", "bad\n"]
+             "2;255;0;0;17;2.2\n", "2;255;3;0;6;0\n", "255;255;3;0;3;\n", "1;255;3;0;3;\n", "1;5;1;0;23;1\n", "bad\n",
+             "1;1;1;0;47;hello\n"]
     calls = [{"a": "SetChild", "n": 1, "c": 0, "t": 23, "value": "57"},
+             # desired values that are "falsy" in Python but perfectly good payloads: switch off, clear a text
+             {"a": "SetChild", "n": 1, "c": 1, "t": 2, "value": "0"},
+             {"a": "SetChild", "n": 1, "c": 1, "t": 47, "value": ""},
              {"a": "SetChild", "n": 1, "c": 0, "t": 23, "value": "43"},
              {"a": "SetChild", "n": 1, "c": 1, "t": 2, "value": "1"},
              {"a": "SetChild", "n": 1, "c": 0, "t": 23, "value": "101"},
@@ -72,3 +76,48 @@ def ids(ver):
              "5;255;0;0;18;2.0\n", "0;255;0;0;17;2.0\n", "255;255;0;0;17;2.0\n", "1;255;3;0;0;50\n", "1;0;0;0;3;d\n",
              "255;255;3;0;3;x\n"]
     return lines, []
+
+
+def falsy_scripts():
+    """Histories in which a sleeping node is asked for values that are falsy in Python but ordinary payloads."""
+    out = []
+    for ver in ("2.0", "2.1", "2.2"):
+        for fl in ("sync", "async"):
+            def R(line):
+                return [["recv", line, 1700000000], ["drain"]]
+            ops = []
+            for ln in ("1;255;0;0;17;" + ver + "\n", "1;1;0;0;36;info\n", "1;2;0;0;3;lamp\n", "1;1;1;0;47;hello\n", "1;2;1;0;2;1\n",
+                       wake(ver, 1)):
+                ops += R(ln)
+            ops += [["set_child", 1, 1, 47, "", 0, False], ["set_child", 1, 2, 2, 0, 0, False], ["set_child", 1, 2, 2, "0", 0, False]]
+            ops += R("1;1;2;0;47;\n") + R(wake(ver, 1)) + R(wake(ver, 1)) + R("1;1;1;0;47;\n") + R(wake(ver, 1))
+            out.append((ver, fl, ops))
+            # a pending desired value survives the presentation of a further child before the next wake-up
+            ops2 = []
+            for ln in ("1;255;0;0;17;" + ver + "\n", "1;0;0;0;6;temp\n", "1;0;1;0;0;43\n", wake(ver, 1)):
+                ops2 += R(ln)
+            ops2 += [["set_child", 1, 0, 0, "57", 0, False]]
+            ops2 += R("1;5;0;0;3;late child\n") + R("1;0;2;0;0;\n") + R(wake(ver, 1)) + R("1;5;1;0;2;1\n") + R(wake(ver, 1))
+            out.append((ver, fl, ops2))
+    return out
+
+
+def ota_scripts(hexfile):
+    """Firmware scheduling around images that cannot be used."""
+    out = []
+    for ver in ("1.4", "2.0", "2.2"):
+        for fl in ("sync", "async"):
+            def R(line):
+                return [["recv", line, 1700000000], ["drain"]]
+            ops = R("1;255;0;0;17;" + ver + "\n") + R("2;255;0;0;17;" + ver + "\n") + R("1;0;0;0;3;lamp\n") + R("2;0;0;0;3;lamp\n")
+            ops += [["update_fw", 1, 10, 2, hexfile]]
+            # the same firmware id, for another node, with image files that hold nothing usable: nothing may be scheduled
+            for bad in (".eof", ".zero", ".garbage", ".missing"):
+                ops += [["update_fw", 2, 10, 2, hexfile + bad]]
+                ops += R("2;0;1;0;2;1\n") + R("2;255;4;0;0;" + hexw(10, 1, 5, 6, 7) + "\n")
+            ops += R("1;0;1;0;2;1\n") + R("1;255;4;0;0;" + hexw(10, 1, 5, 6, 7) + "\n")
+            # block requests that name a zero type or version word although no such firmware is loaded
+            for f in ((0, 2), (10, 0), (0, 0)):
+                ops += R("1;255;4;0;2;" + hexw(f[0], f[1], 0) + "\n")
+            out.append((ver, fl, ops))
+    return out
